@@ -1586,6 +1586,40 @@ def np_sort(interp, a):
     h = getattr(a, 'sort_hook', None)
     if h is not None:
         return h()
+    if isinstance(a, SArr) and a.ndim == 1:
+        # sorted copy of a symbolic-length array: only its two ends are modelled.  first = minimum, last = maximum, each attained
+        # at some position and bounding the elements at both ends and at a generic position (instances of "for all i")
+        n = a.shape[0]
+        snap = a._snapshot()
+        ends = {}
+
+        def end(kind):
+            if kind not in ends:
+                w = CTX.fresh('arg' + kind, 'int')
+                g = CTX.fresh('any_i', 'int')
+                v = snap((w,))
+                cs = [w >= 0, w < n]
+                for i in (0, n - 1, g):
+                    e = snap((i,))
+                    inr = And(Sym.lift(i) >= 0, Sym.lift(i) < n)
+                    cs.append(Implies(inr, v <= e if kind == 'min' else v >= e))
+                CTX.side.append(And(*cs).t)
+                ends[kind] = v
+            return ends[kind]
+
+        def fn(idx):
+            i = idx[0]
+            first, last = eq(i, 0), eq(i, n - 1)
+            if first is True:
+                return end('min')
+            if last is True:
+                return end('max')
+            if first is False and last is False:
+                raise Unsupported("interior element of a sorted symbolic array")
+            return sym_if(first, end('min'), end('max')) if conc_int(n) != 1 else end('min')
+        r = SArr((n,), fn, a.dtype)
+        r.sorted_ends_only = True
+        return r
     raise Unsupported("np.sort")
 
 
